@@ -922,12 +922,13 @@ func (g *Gengine) ExecuteNSortMConcurrent(nSort, mConcurrent int, rb *builder.Ru
 		if bx {
 			g.addResult(rule.RuleName, v)
 		}
-		if b {
-			if e != nil {
+		if e != nil {
+			if b {
 				eMsg = append(eMsg, fmt.Sprintf("%+v", e))
+			} else {
+				//stop at the first failed rule, a rule executed success doesn't end the sort stage
+				return e
 			}
-		} else {
-			return e
 		}
 	}
 
@@ -1021,12 +1022,13 @@ func (g *Gengine) ExecuteNConcurrentMSort(nConcurrent, mSort int, rb *builder.Ru
 		if bx {
 			g.addResult(rule.RuleName, v)
 		}
-		if b {
-			if e != nil {
+		if e != nil {
+			if b {
 				eMsg = append(eMsg, fmt.Sprintf("%+v", e))
+			} else {
+				//stop at the first failed rule, a rule executed success doesn't end the sort stage
+				return e
 			}
-		} else {
-			return e
 		}
 	}
 
@@ -1177,12 +1179,13 @@ func (g *Gengine) ExecuteSelectedNSortMConcurrent(nSort, mConcurrent int, rb *bu
 		if bx {
 			g.addResult(rule.RuleName, v)
 		}
-		if b {
-			if e != nil {
+		if e != nil {
+			if b {
 				eMsg = append(eMsg, fmt.Sprintf("%+v", e))
+			} else {
+				//stop at the first failed rule, a rule executed success doesn't end the sort stage
+				return e
 			}
-		} else {
-			return e
 		}
 	}
 
@@ -1297,12 +1300,13 @@ func (g *Gengine) ExecuteSelectedNConcurrentMSort(nConcurrent, mSort int, rb *bu
 		if bx {
 			g.addResult(rule.RuleName, v)
 		}
-		if b {
-			if e != nil {
+		if e != nil {
+			if b {
 				eMsg = append(eMsg, fmt.Sprintf("%+v", e))
+			} else {
+				//stop at the first failed rule, a rule executed success doesn't end the sort stage
+				return e
 			}
-		} else {
-			return e
 		}
 	}
 
